@@ -523,13 +523,12 @@ func genPipe(c *hx.Rand, tier string) string {
 }
 
 func gen(r *hx.Rand, n int, tier string, emit func(string), st *hx.Stats) {
-	// a few model-side searches first (cheap, deterministic for a given seed)
-	for i := 0; i < 3 && i < n; i++ {
-		c := r.Fork()
-		nn := 2 + c.Intn(2)
-		_, enc := genTopo(c, nn)
-		st.Inc("search")
-		emit(fmt.Sprintf("search %d %s %d %d", nn, enc, 9+c.Intn(3), 2))
+	// two model-side searches first (exhaustive up to the depth bound; small on purpose)
+	for i, sc := range []string{"search 1 0>0 5 2", "search 2 0>1;1>0 6 2", "search 2 0>1.0;1>0 6 2"} {
+		if i < n {
+			st.Inc("search")
+			emit(sc)
+		}
 	}
 	for i := 3; i < n; i++ {
 		c := r.Fork()
